@@ -1,4 +1,5 @@
 import SwcVerif.Props.C14
+import SwcVerif.Props.C14Gen
 #print axioms C14.tree_volume_eq_sum
 #print axioms C14.level1_every_tree
 #print axioms C14.level2_every_tree
@@ -8,6 +9,15 @@ import SwcVerif.Props.C14
 #print axioms C14.node_level2
 #print axioms C14.node_level3
 #print axioms C14.node_level5
+#print axioms RefineVolume.vol_leave_eq
+#print axioms RefineVolume.spec_vol_leave
+#print axioms RefineVolume.getVolume_refines
+#print axioms RefineVolume.getVolume_level10
+#print axioms C14.generated_volume_eq_model
+#print axioms C14.generated_level1_every_tree
+#print axioms C14.generated_level2_every_tree
+#print axioms C14.generated_level3_every_tree
+#print axioms C14.generated_volume_every_tree
 #print axioms C14.chain_union
 #print axioms C14.chain_hyps_of_pairwise
 #print axioms C14.sum_chainRose
